@@ -304,12 +304,29 @@ def coq_case(case: dict) -> str:
             f"c_lang := {coq.coq_string(case['lang'])}; c_fname := {coq.coq_string(case['fname'])}; c_overrides := {ovs}; c_metrics := {ms} |}}")
 
 
+_flags_cache: list[str] = []
+
+
+def _FLAGS() -> list[str]:
+    if not _flags_cache:
+        _flags_cache.extend(actual_flags())
+    return _flags_cache
+
+
+def class_flags(case) -> list[str]:
+    return [f for f in _FLAGS() if in_defect_class(f, case)]
+
+
+def class_flags_term(case) -> str:
+    return coq.coq_list([coq.coq_string(f) for f in class_flags(case)])
+
+
 def judge(cases, impls, workdir: Path, per_shard=30):
     shards, index = [], []
     todo = [j for j in range(len(cases)) if "error" not in impls[j]]
     for s in range(0, len(todo), per_shard):
         chunk = todo[s:s + per_shard]
-        body = "\n".join(f"Eval vm_compute in (judge config_actual {coq_case(cases[j])} {impl_outcome(cases[j], impls[j])})." for j in chunk)
+        body = "\n".join(f"Eval vm_compute in (judge config_actual {class_flags_term(cases[j])} {coq_case(cases[j])} {impl_outcome(cases[j], impls[j])})." for j in chunk)
         shards.append(body)
         index.append(chunk)
     outs = coq.eval_shards(workdir, HEADER, shards)
@@ -387,6 +404,13 @@ def gen_body(r, unit: str, lang: str, m: dict, fname: str, allow_invalid=True) -
         body["ignore"] = [fname] if r.random() < 0.6 else ["unrelated_name.py"]
     if allow_invalid and u.get("guarded") and r.random() < 0.07:
         body[r.choice(u["guarded"])] = r.choice([0, 0, -1, -3, "four"])
+    if not allow_invalid:  # a decoy section of another linter must stay valid (an invalid value there ends every run with exit 2)
+        for opt in u.get("guarded", []):
+            if isinstance(body.get(opt), int):
+                body[opt] = max(body[opt], 1)
+            for sub in body.values():
+                if isinstance(sub, dict) and isinstance(sub.get(opt), int):
+                    sub[opt] = max(sub[opt], 1)
     return body
 
 
@@ -674,7 +698,7 @@ def run(tier: str, seed: int, replay: str | None = None) -> int:
             continue
         chk.traces_validated += 1
         bits = [bool(b) for b in ver]
-        spec_ok, ideal_ok, cand = bits[0], bits[1], bits[2:]
+        spec_ok, ideal_ok, cand, class_repairs = bits[0], bits[1], bits[2:-1], bits[-1]
         cands_all = cand if cands_all is None else [a and b for a, b in zip(cands_all, cand)]
         fails = impl.get("failures") or []
         if fails and not (cand[0] and not spec_ok):
@@ -684,20 +708,20 @@ def run(tier: str, seed: int, replay: str | None = None) -> int:
             continue
         info = {"reason": "exit status / number of violations differs from what the configuration demands", "impl": impl, "case": case,
                 "model_actual_matches_impl": cand[0], "model_ideal_matches_spec": ideal_ok}
+        # flags whose single removal changes the model's outcome on this case
         relevant = [flags[i] for i in range(len(flags)) if not cand[1 + i]]
-        if cand[0] and ideal_ok and not relevant:
-            # several listed defects cover this input at once (no single flag changes the outcome): attribute to the
-            # flags of the unit, else to the carrier-level flags
-            relevant = [f for f in flags if f.endswith("[" + case["unit"] + "]") or f.endswith("[" + UNITS[case["unit"]]["cmd"] + "]")] \
-                or [f for f in flags if "[" not in f or f.startswith("repo_ignore")]
         outside = [k for k in relevant if not in_defect_class(k, case)]
-        if cand[0] and ideal_ok and relevant and outside:
-            info["reason"] = ("the failure follows a listed defect's mechanism but lies outside its declared defect class ("
-                              + ", ".join(outside) + "): the defect now affects inputs it did not affect before")
-            chk.violation(info)
-        elif cand[0] and ideal_ok and relevant:
-            for k in relevant:
+        if cand[0] and ideal_ok and class_repairs and not outside and (relevant or class_flags(case)):
+            # explained by listed defects: the faithful model predicts the implementation, and switching off exactly the flags
+            # whose declared defect class contains the case makes the model meet the specification on it.  Reported: the flags
+            # that matter individually, or (several defects covering the input at once) all flags of the class
+            for k in relevant or class_flags(case):
                 chk.known_finding(k, {"case": {kk: case[kk] for kk in ("unit", "lang", "via", "metrics", "proj", "overrides")}, "impl": impl})
+        elif cand[0] and ideal_ok:
+            info["reason"] = ("the failure follows the mechanism of listed defects but lies outside their declared defect classes (flags that matter: "
+                              + ", ".join(relevant or ["<none alone>"]) + "; class of the case: " + ", ".join(class_flags(case) or ["<none>"])
+                              + "): a listed defect now affects inputs it did not affect before")
+            chk.violation(info)
         else:
             chk.violation(info)
     if cands_all is not None and not cands_all[0]:
